@@ -85,6 +85,11 @@ func (m *Mutex) Unlock() {
 	m.g.Lock()
 	if !m.held {
 		m.g.Unlock()
+		if a := simcore.Active.Load(); a != nil && a.Over() {
+			// a goroutine unwound by the simulator at the end of a run runs its deferred
+			// Unlock although it was parked between an explicit Unlock and the next Lock
+			return
+		}
 		panic("simsync: unlock of unlocked mutex")
 	}
 	m.held = false
